@@ -6,6 +6,7 @@ import (
 	"encoding/json"
 	"errors"
 	"fmt"
+	"io"
 	"math/rand"
 	"strings"
 
@@ -157,6 +158,39 @@ func gen(body []byte) *core.Verdict {
 		v.Events = append(v.Events, b)
 	}
 	emit(map[string]any{"ev": "reset", "tid": q.Tid, "prefix": ints([]byte(p))})
+	if rng.Intn(5) == 0 {
+		// nested writers: an outer indenting writer on top of an inner one, written to in any order
+		p2 := prefixes[rng.Intn(len(prefixes))]
+		var sink bytes.Buffer
+		inner := indent.NewWriter(&sink, p)
+		var outer io.Writer
+		alphabet := []string{"a", "b", "\n", "\n", " ", "é", ":", p2[:1]}
+		calls := []map[string]any{}
+		n := 1 + rng.Intn(12)
+		at := rng.Intn(n)
+		for i := 0; i < n; i++ {
+			if i == at {
+				outer = indent.NewWriter(inner, p2) // possibly while the inner writer has a line open
+			}
+			var chunk []byte
+			for j, k := 0, rng.Intn(7); j < k; j++ {
+				chunk = append(chunk, alphabet[rng.Intn(len(alphabet))]...)
+			}
+			lvl := 1
+			if outer != nil && rng.Intn(3) > 0 {
+				lvl = 2
+				outer.Write(chunk)
+			} else {
+				inner.Write(chunk)
+			}
+			calls = append(calls, map[string]any{"lvl": lvl, "chunk": ints(chunk)})
+		}
+		emit(map[string]any{"ev": "nested", "p1": ints([]byte(p)), "p2": ints([]byte(p2)), "calls": calls, "sink": ints(sink.Bytes())})
+		if q.Tid == 1 {
+			v.Sample = map[string]any{"direction": "B", "nested": true, "calls": len(calls)}
+		}
+		return v
+	}
 	u := &lw{n: -1}
 	if rng.Intn(3) != 0 {
 		u.n = rng.Intn(120)
